@@ -13,7 +13,9 @@
 //	(c) viewBox x viewport x preserveAspectRatio against the SVG 2 §8.2 equivalent transform,
 //	    observed as the transformation in effect when the content is drawn;
 //	(d) reference graphs on <= 3 ids for use, gradient href, pattern, marker, clip-path, mask:
-//	    must terminate without crashing and still draw the part that references nothing.
+//	    must terminate without crashing and still draw the part that references nothing;
+//	(e) every sequence of <= 3 (thorough 4) <use> instances of one definition: each instance
+//	    (and the definition itself) is drawn as it is when alone.
 package c18
 
 import (
@@ -54,6 +56,7 @@ func (c *check) Init(tier string, seed int64) engine.Space {
 		newShapeFamily(thorough),
 		newViewboxFamily(thorough),
 		newRefFamily(thorough),
+		newUseFamily(thorough),
 	}
 	c.starts = c.starts[:0]
 	var total int64
@@ -65,7 +68,7 @@ func (c *check) Init(tier string, seed int64) engine.Space {
 	}
 	return engine.Space{
 		Units: total, Chunk: 512, Level: "model_checking",
-		Rule:   "four index-addressable families, simplest first: (a) path data = every command sequence up to the stated length after an initial moveto x deviations (relative initial moveto, second argument group on the initial moveto or on one segment) x argument variants x spellings; (b) every combination of the listed attribute values for rect/circle/ellipse/line/polyline/polygon; (c) every viewBox x viewport x preserveAspectRatio x placement (root / nested svg); (d) every directed graph on <= 3 ids (thorough: 4 for use and the single-reference kinds) plus a dangling id, per reference kind. A case is non-trivial when the image was accepted and path operations reached the backend, so that the geometry clauses were evaluated.",
+		Rule:   "five index-addressable families, simplest first: (a) path data = every command sequence up to the stated length after an initial moveto x deviations (relative initial moveto, second argument group on the initial moveto or on one segment) x argument variants x spellings; (b) every combination of the listed attribute values for rect/circle/ellipse/line/polyline/polygon; (c) every viewBox x viewport x preserveAspectRatio x placement (root / nested svg); (d) every directed graph on <= 3 ids (thorough: 4 for use and the single-reference kinds) plus a dangling id, per reference kind; (e) every definition x placement of the definition x sequence of <use> attribute sets up to the stated number of instances. A case is non-trivial when the image was accepted and path operations reached the backend, so that the geometry clauses were evaluated.",
 		Bounds: bounds,
 		Assumptions: []string{
 			"coordinates outside the value pool {10,-5,2.5,0,7,0.5,-8,3,-0.5,4} and arc parameters outside the 10-entry menu behave like the listed ones",
